@@ -1302,8 +1302,17 @@ class PyCdlib:
         old = self._cdfp.tell()
         self._seek_to_extent(eltorito_boot_catalog_extent)
         data = self._cdfp.read(32)
+        nread = 32
         while not self.eltorito_boot_catalog.parse(data):
+            if nread >= self.logical_block_size:
+                # The Boot Catalog is exactly one extent long, and a full one
+                # has no room for the empty entry that ends it; what follows
+                # the extent is not part of the catalog.
+                if not self.eltorito_boot_catalog.parse(b'\x00' * 32):
+                    raise pycdlibexception.PyCdlibInvalidISO('El Torito Boot Catalog does not end within its extent')
+                break
             data = self._cdfp.read(32)
+            nread += 32
         self._cdfp.seek(old)
 
     def _udf_assign_extents(self, udf_files, current_extent):
